@@ -41,10 +41,12 @@ structure World where
   comp : Component
   TG : Vid → List (Name × Name)
   OG : Vid → List (Name × Name)
+  /-- whether the engine's fold-count shortcuts are enabled (irrelevant without folds) -/
+  lim : Bool := false
 
 namespace World
 
-def env (W : World) : Env := { Env.ofData W.D W.args with useLimits := false }
+def env (W : World) : Env := { Env.ofData W.D W.args with useLimits := W.lim }
 def senv (W : World) : SpecEnv := ⟨W.D, W.args, W.edges⟩
 
 @[simp] theorem senv_data (W : World) : W.senv.data = W.D := rfl
@@ -56,7 +58,7 @@ def senv (W : World) : SpecEnv := ⟨W.D, W.args, W.edges⟩
     W.env.adapter.nbrs eid t e ps v = .ok (W.D.nbrsOpt v e ps) := rfl
 @[simp] theorem env_coerce (W : World) (vid t to v) :
     W.env.adapter.coerce vid t to v = .ok (match v with | some x => W.D.isA x to | none => false) := rfl
-@[simp] theorem env_useLimits (W : World) : W.env.useLimits = false := rfl
+@[simp] theorem env_useLimits (W : World) : W.env.useLimits = W.lim := rfl
 
 def tagsAt (W : World) (p : Vid × Option VertexId) : List (Name × Tagged) := tagBinds W.D p.2 (W.TG p.1)
 def outsAt (W : World) (p : Vid × Option VertexId) : List (Name × Value) := outBinds W.D p.2 (W.OG p.1)
